@@ -45,8 +45,12 @@ def gen_case(rng, big=False):
     deg = tgt[2] if tgt[2] is not None else rng.choice([2, 3])
     lam_mode = rng.choice(["default", "default", "const_big", "const_small", "abs", "absplus"])
     pairs = rng.choice(["none", "none", "present", "unknown"])
+    # what happened to the object before the judged conversion (the statement covers every model in refreshed state,
+    # however it got there): nothing / another conversion / conversion then a new enumeration / conversion, edit, refresh
+    history = rng.choice(["fresh", "fresh", "fresh", "converted", "remapped", "edited"])
+    hist = {"kind": history, "first": rng.choice(["qubo", "quso", "pubo", "puso"]), "perm_seed": rng.randint(0, 10 ** 6)}
     return {"src": src, "labels": labels, "terms": terms, "den": den, "target": tgt[0], "spin_tgt": tgt[1], "deg": deg,
-            "expect_type": tgt[3], "lam_mode": lam_mode, "pairs": pairs}
+            "expect_type": tgt[3], "lam_mode": lam_mode, "pairs": pairs, "history": hist}
 
 
 def run_case(case, cid, want_cert):
@@ -56,6 +60,29 @@ def run_case(case, cid, want_cert):
     cls = getattr(qv, case["src"])
     den = case["den"]
     model = cls({k: (v / den if den != 1 else v) for k, v in case["terms"].items()})
+    hist = case.get("history", {"kind": "fresh"})
+    if hist["kind"] != "fresh":
+        import random
+        hr = random.Random(hist["perm_seed"])
+        with warnings.catch_warnings():
+            warnings.simplefilter("ignore")
+            try:
+                getattr(model, "to_" + hist["first"])(**({"deg": 2} if hist["first"] in ("pubo", "puso") else {}))
+            except Exception:      # noqa  (the judged call below reports what it raises itself)
+                pass
+        if hist["kind"] == "remapped":
+            vs = list(model.mapping)
+            perm = list(range(len(vs)))
+            hr.shuffle(perm)
+            model.set_mapping(dict(zip(vs, perm)))
+        elif hist["kind"] == "edited":
+            ks = list(model)
+            if ks:
+                k0 = hr.choice(ks)
+                model[k0] -= model[k0]                      # a term cancels in place
+            labs = case["labels"]
+            model[tuple(hr.sample(labs, min(3, len(labs))))] += hr.choice([-2, 1, 3])
+            model.refresh()
     spin_src = case["src"] in ("PUSO", "PCSO")
     labels = case["labels"]
     names = {(type(l).__name__, l): "L%d" % i for i, l in enumerate(labels)}
@@ -113,8 +140,22 @@ def run_case(case, cid, want_cert):
             ok = True
             for bits in itertools.product([0, 1], repeat=len(dvars)):
                 sol = {v: ((1 - 2 * b) if case["spin_tgt"] else b) for v, b in zip(dvars, bits)}
+                # every documented way of handing the assignment over: dict / list / tuple, the spin flag given or left to
+                # the library's detection (only where the assignment is unambiguous: a spin assignment with a -1 somewhere,
+                # any boolean assignment)
+                mode = (len(conv) + cid) % 4
+                dense = dvars == list(range(len(dvars)))
+                arg = sol
+                if mode == 2 and dense:
+                    arg = [sol[v] for v in dvars]
+                elif mode == 3 and dense:
+                    arg = tuple(sol[v] for v in dvars)
+                # unambiguous: a spin assignment holding a -1, a boolean assignment holding a 0, or the all-ones assignment
+                # where the class's documented default (spin for PUSO/PCSO, boolean for PUBO/PCBO) is the form's own domain
+                unamb = any(bits) if case["spin_tgt"] else not all(bits)
+                detect = mode in (1, 3) and (unamb or case["spin_tgt"] == spin_src)
                 try:
-                    cs = model.convert_solution(sol, spin=case["spin_tgt"])
+                    cs = model.convert_solution(arg) if detect else model.convert_solution(arg, spin=case["spin_tgt"])
                     on = [nm(k) for k, v in cs.items() if v == (-1 if spin_src else 1)]
                     if any(v not in ((1, -1) if spin_src else (0, 1)) for v in cs.values()):
                         on = ["?bad-value"]
